@@ -136,6 +136,44 @@ theorem exec_good : ∀ (f : Nat), IH sc f := by
             exact hK _ none hI1 hle1 hwf1 hg1
           · simp only [leaf_andThen]
             exact hK _ none hI (NFle.refl _) hwf hg
+        | mvs a b =>
+          simp only
+          split
+          · rename_i a' ha
+            obtain ⟨e1, hla, hda⟩ := readRef_some ha
+            simp only [andThen_assoc]
+            refine step_good sc ih (by exact hI) (by rw [e1]; exact live_nf hI hla hda)
+              (by exact hwf) (by exact hg) (NFle.refl _) ?_
+            intro w1 v hI1 hle1 hwf1 hg1 hv
+            simp only [leaf_andThen]
+            exact hK _ none hI1 hle1 hwf1 hg1
+          · simp only [leaf_andThen]
+            exact hK _ none hI (NFle.refl _) hwf hg
+        | pr e t =>
+          simp only
+          split
+          · simp only [leaf_andThen]
+            exact hK _ none hI (NFle.refl _) hwf hg
+          · rename_i e' he
+            obtain ⟨e1, hle', hde⟩ := readRef_some he
+            simp only [andThen_assoc]
+            refine step_good sc ih (by exact hI) ?_ (by exact hwf) (by exact hg) (NFle.refl _) ?_
+            · intro ob hob
+              have hm : ob ∈ (w.c.objs e').contains := List.mem_of_mem_head? hob
+              have := cont_live hI hm
+              exact live_nf hI this.1 this.2
+            · intro w1 v hI1 hle1 hwf1 hg1 hv
+              simp only [leaf_andThen]
+              exact hK _ none hI1 hle1 hwf1 hg1
+        | fis b =>
+          simp only [andThen_assoc]
+          refine step_good sc ih hI trivial hwf hg (NFle.refl _) ?_
+          intro w1 v hI1 hle1 hwf1 hg1 hv
+          split
+          · simp only [raise_andThen]
+            exact good_raise hle1 hg1 hwf1
+          · simp only [leaf_andThen]
+            exact hK _ none hI1 hle1 hwf1 hg1
         | ec a =>
           simp only
           split
@@ -360,6 +398,15 @@ theorem exec_good : ∀ (f : Nat), IH sc f := by
           · intro hec
             refine good_ite (fun h => absurd h.1 hec) (fun _ => ?_)
             exact hfan _ hrel hle0 (fun g hgg => hle0 _ (hwf g hgg)) hg hsup0
+    | moveStr item b =>
+      simp only [exec]
+      have hit : NF w.c item := ht
+      refine step_good sc ih hI trivial hwf hg (NFle.refl _) ?_
+      intro w1 v hI1 hle1 hwf1 hg1 hv
+      split
+      · exact good_raise hle1 hg1 hwf1
+      · rename_i d
+        exact (ih (.move item d) w1 hI1 ⟨hle1 _ hit, hv d rfl⟩ hwf1 hg1).mono hle1
     | fan item dest cur saveCg =>
       simp only [exec]
       obtain ⟨hit, hdt, hcur, hsup, hsave⟩ := ht
@@ -431,6 +478,22 @@ theorem exec_good : ∀ (f : Nat), IH sc f := by
           apply Classical.byContradiction; intro hc; exact hn ⟨hec, hc⟩
         · intro hec
           exact hk1 w hI (NFle.refl _) hwf hg (fun _ => hsup)
+    | present env tgt cur =>
+      simp only [exec]
+      split
+      · exact good_val (NFle.refl _) hg hwf (by simp)
+      · rename_i ob
+        have hob : NF w.c ob := ht ob rfl
+        refine good_ite (fun h => crash_absurd (by rcases h with h | h; exact h hob.1; simp [hob.2] at h)) (fun _ => ?_)
+        refine step_good sc ih hI ⟨hob, by intro y h; cases h⟩ hwf hg (NFle.refl _) ?_
+        intro w1 v hI1 hle1 hwf1 hg1 hv
+        refine good_ite (fun _ => good_val hle1 hg1 hwf1 (by simp)) (fun _ => ?_)
+        refine good_ite (fun _ => good_val hle1 hg1 hwf1 (by simp)) (fun _ => ?_)
+        refine good_ite (fun _ => good_val hle1 hg1 hwf1 (fun x hx => by cases hx; exact hle1 _ hob)) (fun _ => ?_)
+        refine (ih (.present env tgt (nextInv w1.c ob)) w1 hI1 ?_ hwf1 hg1).mono hle1
+        intro nx hnx
+        have := nextInv_live hI1 hnx
+        exact live_nf hI1 this.1 this.2
     | command a verb =>
       simp only [exec]
       have ha : NF w.c a := ht
